@@ -1,4 +1,6 @@
 import Mochi.Model.Broker
+import Mochi.Lemmas.BrokerConnect
+import Mochi.Lemmas.BrokerDelivery
 /-!
 # C13 — Connections start with one CONNACK and only authenticated clients are admitted
 
@@ -7,6 +9,11 @@ exactly one CONNACK, creates no session and is closed; a client is admitted only
 authentication hook allows it, and with no authentication hook every connection is refused.
 Schedules (a concurrent publish reaching the new client between `Clients.Add` and the CONNACK write —
 known finding F13) are the concurrency model's subject.
+
+For every state reachable by a sequential history: `C13_connack_first_seq` (lemmas in
+`Mochi/Lemmas/BrokerConnect.lean`) — a refused CONNECT writes exactly the failure CONNACK and the close and registers
+nothing; an admitted one writes, before the CONNACK 0, only the take-over DISCONNECT 0x8E / close on ANOTHER
+connection, and no CONNACK afterwards; the first packet on the new connection is the one CONNACK of the op.
 -/
 namespace Mochi.Broker
 open Mochi.Topics
@@ -78,3 +85,111 @@ example :
        .recv 2 (.publish 0 false false 0 [97] [1] 0 none)]).2 3 = [true, false] := by decide
 
 end Mochi.Broker
+
+/-! ## C13 for every sequential history -/
+namespace Mochi.Broker
+open Mochi.Topics
+
+/-- **C13, sequential (item 4).**  `s` reachable by a sequential history, `conn` a fresh connection number, `k` a CONNECT;
+    `dec` = the decision of `attachClient` (`refuseCode` in the state where the new client object exists).
+
+    * refused (`dec = some code`): `code` is a failure code (≥ 0x80); the outputs of the op are EXACTLY the failure
+      CONNACK on `conn` and the close of `conn`; the Clients map and the delayed wills are unchanged (nothing is
+      registered).  In this model every refusal writes a CONNACK: a CONNECT that cannot be decoded / validated before
+      the protocol version is known never reaches `attachClient`'s decision (it is the reader's and the codec's
+      subject: models M5/M7, property C21), so "refused without CONNACK" does not occur at a `connect` op;
+    * admitted (`dec = none`): the authentication hook allowed the client; the outputs are `pre ++ [CONNACK 0] ++ post`
+      where `pre` — the take-over of the session's old connection — consists only of a DISCONNECT 0x8E and a close on
+      ANOTHER connection `c'`, and `post` (the taken-over handler's will fan-out, the resent in-flight messages, the
+      barrier's releases) contains no CONNACK;
+    * hence in both cases: the first packet written to `conn` is a CONNACK, and it is the only CONNACK of the op;
+      its code is 0 iff the connection was admitted. -/
+theorem C13_connack_first_seq (caps : Caps) (s : Server) (hr : ReachSeq caps s) (conn : Nat) (k : Connect)
+    (hf : conn ∉ s.connOf.map (·.1)) :
+    let dec := refuseCode (connState s conn k) k (parseConnect s conn k)
+    let r := step s (.connect conn k)
+    (∀ code, dec = some code → code ≥ 0x80 ∧
+      r.2 = [.wrote conn (.connack k.ver false code s.caps.receiveMaximum s.caps.maximumQos none), .closed conn] ∧
+      r.1.clients = s.clients ∧ r.1.willDelayed = s.willDelayed) ∧
+    (dec = none → authAllows s k.id = true ∧
+      ∃ c' pre ver sp rm mq seiOut post, c' ≠ conn ∧ TakeoverOut c' pre ∧
+        r.2 = pre ++ [.wrote conn (.connack ver sp 0 rm mq seiOut)] ++ post ∧ NoConnack post) ∧
+    (∃ ver sp code rm mq seiOut rest, writesTo conn r.2 = .connack ver sp code rm mq seiOut :: rest ∧
+      (∀ pk ∈ rest, pk.isConnack = false) ∧ (code = 0 ↔ dec = none)) := by
+  intro dec r
+  obtain ⟨_, hw, hcm, _⟩ := hr.inv
+  have refused : ∀ code, dec = some code → code ≥ 0x80 ∧
+      r.2 = [.wrote conn (.connack k.ver false code s.caps.receiveMaximum s.caps.maximumQos none), .closed conn] ∧
+      r.1.clients = s.clients ∧ r.1.willDelayed = s.willDelayed := by
+    intro code hd
+    obtain ⟨e, o, c, w⟩ := connect_refused s conn k code hd hf
+    refine ⟨refuseCode_failure _ _ _ _ hd, ?_, ?_, ?_⟩
+    · show (step s (.connect conn k)).2 = _; rw [e]; exact o
+    · show (step s (.connect conn k)).1.clients = _; rw [e]; exact c
+    · show (step s (.connect conn k)).1.willDelayed = _; rw [e]; exact w
+  have admitted : dec = none → authAllows s k.id = true ∧
+      ∃ c' pre ver sp rm mq seiOut post, c' ≠ conn ∧ TakeoverOut c' pre ∧
+        r.2 = pre ++ [.wrote conn (.connack ver sp 0 rm mq seiOut)] ++ post ∧ NoConnack post := fun hd =>
+    ⟨C13_auth (connState s conn k) k _ hd, connect_admitted_out s hw hcm conn k hd hf⟩
+  refine ⟨refused, admitted, ?_⟩
+  cases hd : dec with
+  | some code =>
+    obtain ⟨hc, ho, _⟩ := refused code hd
+    refine ⟨k.ver, false, code, s.caps.receiveMaximum, s.caps.maximumQos, none, [], ?_, (fun _ h => by cases h), ?_⟩
+    · rw [ho]; simp [writesTo]
+    · constructor
+      · intro h0; omega
+      · intro h; cases h
+  | none =>
+    obtain ⟨_, c', pre, ver, sp, rm, mq, seiOut, post, hc', hto, ho, hnp⟩ := admitted hd
+    refine ⟨ver, sp, 0, rm, mq, seiOut, writesTo conn post, ?_, writesTo_noConnack hnp, ?_⟩
+    · rw [ho, writesTo_append, writesTo_append, writesTo_takeover hto hc']
+      simp [writesTo]
+    · exact ⟨fun _ => rfl, fun _ => rfl⟩
+
+end Mochi.Broker
+
+/-! ## Non-vacuity -/
+namespace Mochi.Broker
+open Mochi.Topics
+
+/-- two clients; the authentication hook denies the client id `b` (configured between ops: `ReachSeq.config`) -/
+def c13History : List Op :=
+  [.connect 1 { ver := 5, id := [115] },
+   .connect 2 { ver := 5, id := [99, 49], will := some { topic := [120], payload := [119] } }]
+
+def c13State : Server := { run (init {}) c13History with auth := .deny [98] }
+
+theorem c13State_reach : ReachSeq {} c13State :=
+  (ReachSeq.init.run c13History (by decide) (by decide)).config ⟨rfl, rfl, rfl, rfl, rfl, rfl, rfl, rfl⟩
+
+/-- **a refused CONNECT (bad authentication)**: CONNACK 0x86, close, nothing registered -/
+example :
+    let r := step c13State (.connect 3 { ver := 5, id := [98] })
+    refuseCode (connState c13State 3 { ver := 5, id := [98] }) { ver := 5, id := [98] }
+      (parseConnect c13State 3 { ver := 5, id := [98] }) = some 0x86 ∧
+    r.2 = [.wrote 3 (.connack 5 false 0x86 1024 2 none), .closed 3] ∧ r.1.clients = c13State.clients := by decide
+
+/-- **a take-over**: DISCONNECT 0x8E and close on the old connection 2, then CONNACK 0 on connection 3 -/
+example :
+    let r := step c13State (.connect 3 { ver := 5, id := [99, 49] })
+    r.2.take 3 = [.wrote 2 (.disconnect 5 0x8E), .closed 2, .wrote 3 (.connack 5 false 0 1024 2 none)] ∧
+    writesTo 3 r.2 = [.connack 5 false 0 1024 2 none] := by decide
+
+/-- `C13_connack_first_seq` instantiated for both -/
+example : ∃ ver sp code rm mq seiOut rest,
+    writesTo 3 (step c13State (.connect 3 { ver := 5, id := [98] })).2 = .connack ver sp code rm mq seiOut :: rest ∧
+    (∀ pk ∈ rest, pk.isConnack = false) ∧
+    (code = 0 ↔ refuseCode (connState c13State 3 { ver := 5, id := [98] }) { ver := 5, id := [98] }
+      (parseConnect c13State 3 { ver := 5, id := [98] }) = none) :=
+  (C13_connack_first_seq {} c13State c13State_reach 3 { ver := 5, id := [98] } (by decide)).2.2
+
+example : ∃ c' pre ver sp rm mq seiOut post, c' ≠ 3 ∧ TakeoverOut c' pre ∧
+    (step c13State (.connect 3 { ver := 5, id := [99, 49] })).2 =
+      pre ++ [.wrote 3 (.connack ver sp 0 rm mq seiOut)] ++ post ∧ NoConnack post :=
+  ((C13_connack_first_seq {} c13State c13State_reach 3 { ver := 5, id := [99, 49] } (by decide)).2.1 (by decide)).2
+
+end Mochi.Broker
+
+#print axioms Mochi.Broker.C13_connack_first_seq
+#print axioms Mochi.Broker.c13State_reach
